@@ -358,6 +358,34 @@ func (x *X) evalCall(env *Env, e *ast.CallExpr) TV {
 			case MapV:
 				return TV{S{x.mapLen(a.T.Underlying().(*types.Map), v.Ref), SInt}, types.Typ[types.Int]}
 			}
+		case "seen":
+			// seen(k): key k was already visited by the enclosing range-over-map loop (ghost)
+			sv, ok := env.vars["$seen"]
+			if !ok {
+				panic("contract: seen() outside a range-over-map loop invariant")
+			}
+			k := x.eval(env, e.Args[0])
+			return TV{S{"(select " + sv.V.(S).T + " " + k.V.(S).T + ")", SBool}, boolT}
+		case "hint":
+			// hint(t): always true; only puts the term t in front of the solver (a trigger)
+			a := x.eval(env, e.Args[0])
+			if _, ok := x.sc.declared["gv.trig"]; !ok {
+				x.sc.Declare("gv.trig", []string{SInt}, SBool)
+				x.sc.Assert("(forall ((x Int)) (! (gv.trig x) :pattern ((gv.trig x))))")
+			}
+			return TV{S{"(gv.trig " + x.flatten(a.V)[0].T + ")", SBool}, boolT}
+		case "bit":
+			// bit(x, k): bit k of the non-negative integer x (see bvAxioms)
+			x.bvAxioms()
+			a := x.eval(env, e.Args[0])
+			k := x.eval(env, e.Args[1])
+			return TV{S{"(bv.bit " + a.V.(S).T + " " + k.V.(S).T + ")", SBool}, boolT}
+		case "bvdiff":
+			// bvdiff(x, y): a bit position where x and y differ when x != y (extensionality witness)
+			x.bvAxioms()
+			a := x.eval(env, e.Args[0])
+			b := x.eval(env, e.Args[1])
+			return TV{S{"(bv.diff " + a.V.(S).T + " " + b.V.(S).T + ")", SInt}, types.Typ[types.Int]}
 		case "fst", "snd":
 			a := x.eval(env, e.Args[0])
 			i := 0
@@ -400,7 +428,7 @@ func (x *X) evalCall(env *Env, e *ast.CallExpr) TV {
 			return TV{S{fmt.Sprintf("(and (not (= %s 0)) (not (select %s %s)))", ref, env.old.heap["ALLOC"], ref), SBool}, boolT}
 		}
 		if specs := x.specs; specs != nil {
-			if pd, ok := specs.Preds[id.Name]; ok {
+			if pd, ok := specs.Preds[env.pkg.Name()+"."+id.Name]; ok {
 				sub := &Env{vars: map[string]TV{}, pkg: env.pkg, old: env.old}
 				for i, p := range pd.Params {
 					a := x.eval(env, e.Args[i])
